@@ -270,6 +270,8 @@ func (c *c18qconn) OpenStream() (quic.Stream, error) {
 	return s, nil
 }
 
+func (c *c18qconn) OpenStreamSync(context.Context) (quic.Stream, error) { return c.OpenStream() }
+
 func (c *c18qconn) CloseWithError(quic.ApplicationErrorCode, string) error {
 	c.mu.Lock()
 	c.closed = true
